@@ -171,9 +171,25 @@ def cg_cases(ctx, rnd, tier):
     targs = [a for a in all_cg_args(8) if a[0] % 2 == 0 and a[2] % 2 == 0 and (a[0] // 2 + a[2] // 2) <= 8]
     if tier == "quick":
         targs = rnd.sample(targs, 600)
+    # outside the triangle (exact value 0), in particular behind the zero-spin shortcut (hunt2 C12 finding 1, /repo 9ef724b)
+    tri = []
+    for j1 in range(0, 9, 2):
+        for j2 in range(0, 9, 2):
+            for J in range(0, 17, 2):
+                if not (abs(j1 - j2) <= J <= j1 + j2):
+                    for m1 in range(-j1, j1 + 1, 2):
+                        for m2 in range(-j2, j2 + 1, 2):
+                            tri.append((j1, m1, j2, m2, J, m1 + m2))
+    zero_spin = [a for a in tri if a[0] == 0 or a[2] == 0]
+    targs = targs + (rnd.sample(zero_spin, 60) + rnd.sample(tri, 140) if tier == "quick" else tri)
+    ctx.count("cg_table_path_outside_triangle", len(tri) if tier != "quick" else 200)
     tg = {}
-    for a in targs:
+    for k_, a in enumerate(targs):
         j1, m1, j2, m2, J, M = [t // 2 for t in a]
+        if k_ % 3 == 2:
+            # integer-valued float spins (GetA2BC_LS_list itself returns s = 1.0): same coefficient
+            j1, m1, j2, m2, J, M = [float(t) for t in (j1, m1, j2, m2, J, M)]
+            ctx.count("cg_table_path_float_args")
         v = cgmod.get_cg_coef(j1, j2, m1, m2, J, M)
         tg.setdefault((a[0], a[2]), []).append((a, float(v)))
         ctx.evaluations += 1
@@ -216,8 +232,8 @@ def su2_cases(ctx, rnd, n):
         om = rnd.uniform(0.1, 1.5)
         R = lambda a, b, g: SU2M.Rotation_z(T(a)) * SU2M.Rotation_y(T(b)) * SU2M.Rotation_z(T(g))
         # two thirds generic (rotation, r1 r2^-1, r1 b b^-1 r2: these reach the second sheet of SU(2)), one third end-point products
-        kind = (k % 3) if k < (2 * n) // 3 else 3 + (k % 5)
-        atol = 1e-9
+        kind = (k % 3) if k < (2 * n) // 3 else 3 + (k % 7)
+        atol = 1e-11
         if kind == 0:
             X = R(a1, b1, g1)
         elif kind == 1:
@@ -225,8 +241,9 @@ def su2_cases(ctx, rnd, n):
         elif kind == 2:
             X = R(a1, b1, g1) * SU2M.Boost_z(T(om)) * SU2M.Boost_z(T(-om)) * R(a2, b2, g2)
         else:
-            # products that compose to beta = 0 or pi (end points of acos; conditioning sqrt(eps): atol 1e-6)
-            atol = 1e-6
+            # products that compose to beta = 0 or pi, and beta within 1e-8 of them.  Until /repo 8e0f5a7 beta was
+            # acos(Re(x00 x11 + x01 x10)), whose conditioning at the end points is sqrt(eps): the rebuilt matrix was
+            # off by 2e-8..1e-7 there (hunt2 C12 finding 2); with beta = 2 atan2(|x10|,|x11|) the tolerance is uniform
             if kind == 3:
                 X = R(a1, b1, g1) * R(a1, b1, g1).inv()  # identity
             elif kind == 4:
@@ -235,9 +252,13 @@ def su2_cases(ctx, rnd, n):
                 X = SU2M.Rotation_y(T(math.pi)) * SU2M.Rotation_z(T(a1))  # beta = pi
             elif kind == 6:
                 X = SU2M.Rotation_z(T(a1)) * SU2M.Rotation_y(T(math.pi)) * SU2M.Rotation_z(T(g1))
-            else:
+            elif kind == 7:
                 Y = R(a1, b1, g1).inv() * SU2M.Boost_z(T(om)) * R(a1, b1, g1)
                 X = Y.inv() * Y  # (R^-1 B R)^-1 (R^-1 B R)
+            elif kind == 8:
+                X = R(a1, rnd.choice([1e-8, 1e-7, 3e-6]), g1)  # tiny beta
+            else:
+                X = R(a1, math.pi - rnd.choice([1e-8, 1e-7, 3e-6]), g1)  # beta just below pi
         ctx.count("su2_kind_%d" % kind)
         x = [[complex(np.array(X["x"][i][j]).reshape(-1)[0]) for j in range(2)] for i in range(2)]
         e = X.get_euler_angle()
